@@ -144,6 +144,11 @@ func init() {
 	regPS("(github.com/prometheus/client_golang/prometheus.", "", nop)
 	regPS("(*github.com/prometheus/client_golang/prometheus.", "", nop)
 	regPS("github.com/prometheus/client_golang/prometheus.", "", nop)
+	reg("time.AfterFunc", func(in *Interp, c *Frame, fn *ssa.Function, a []Value) Value { return Ptr{} }) // never fires
+	reg("(*time.Timer).Stop", func(in *Interp, c *Frame, fn *ssa.Function, a []Value) Value { return in.st.False })
+	reg("(*time.Timer).Reset", func(in *Interp, c *Frame, fn *ssa.Function, a []Value) Value { return in.st.False })
+	reg("(*time.Ticker).Stop", nop)
+	reg("(*time.Ticker).Reset", nop)
 	reg("time.Since", func(in *Interp, c *Frame, fn *ssa.Function, a []Value) Value { return in.st.Const(64, 0) })
 	reg("time.Now", func(in *Interp, c *Frame, fn *ssa.Function, a []Value) Value { return in.zero(fn.Signature.Results().At(0).Type()) })
 
